@@ -17,7 +17,8 @@ type Solver struct {
 	in       io.WriteCloser
 	out      *bufio.Reader
 	defined  map[int]bool // node ids already named/declared in this session
-	stack    []Term       // asserted path-condition conjuncts, one push level each
+	declUF   map[string]bool
+	stack    []Term // asserted path-condition conjuncts, one push level each
 	tempOpen bool
 	queries  int
 	unknowns int
@@ -123,7 +124,22 @@ func (s *Solver) ref(t Term) string {
 			continue
 		}
 		var sb strings.Builder
-		fmt.Fprintf(&sb, "(define-fun t%d () %s (%s", n.id, n.sort.smt(), n.op)
+		opName := n.op
+		if strings.HasPrefix(n.op, "uf:") {
+			opName = strings.TrimPrefix(n.op, "uf:")
+			if !s.declUF[opName] {
+				if s.declUF == nil {
+					s.declUF = map[string]bool{}
+				}
+				s.declUF[opName] = true
+				var as []string
+				for _, a := range n.args {
+					as = append(as, a.sort.smt())
+				}
+				s.send(fmt.Sprintf("(declare-fun %s (%s) %s)", opName, strings.Join(as, " "), n.sort.smt()))
+			}
+		}
+		fmt.Fprintf(&sb, "(define-fun t%d () %s (%s", n.id, n.sort.smt(), opName)
 		for _, a := range n.args {
 			sb.WriteString(" ")
 			sb.WriteString(s.ref(a)) // children are defined or leaves now
